@@ -313,7 +313,11 @@ type Capture struct {
 
 func NewCapture() *Capture { return &Capture{P2PMessaging: p2p.VerifNewMessaging()} }
 
-func (c *Capture) SendMessage(_ context.Context, m p2pmsg.Message, _ ...retry.Option) error {
+func (c *Capture) SendMessage(ctx context.Context, m p2pmsg.Message, _ ...retry.Option) error {
+	// like the real publish path, a send with a dead context fails
+	if err := ctx.Err(); err != nil {
+		return err
+	}
 	if c.FailSend != nil {
 		if err := c.FailSend(m); err != nil {
 			return err
